@@ -13,6 +13,7 @@
   memory outside its own parameter slots, and it produces no output.
 -/
 import CprocVerif.Lemmas.LowerMain
+import CprocVerif.Lemmas.Lower2Main
 import CprocVerif.Spec.QbeWf
 
 namespace CprocVerif.C01
@@ -185,5 +186,172 @@ example : ∃ fuel₀, ∀ fuel, fuel₀ ≤ fuel →
       | 1, ht, hv => cases ht; cases hv; decide
       | 2, ht, hv => cases ht; cases hv; decide⟩
     (by decide) (by decide) (by decide)
+
+/-! # Fragment 𝔽₂ — function bodies with statements
+
+  * source semantics: `CSem2.exec` / `CSem2.runC` (fuel-indexed big-step execution over a store of the
+    parameters and the block-scope integer objects; `none` = undefined behaviour — of an expression, or
+    the read of an object whose value is indeterminate — or fuel exhausted),
+  * lowering: `Lower2.emitFunc` (transliteration of `stmt.c`, `decl.c`'s `funcinit` path and `qbe.c`'s
+    `funcalloc`/`funcstore`/`funcload`/`funclabel`/`funcjmp`/`funcjnz`/`funcret`; tied to the real
+    compiler by text comparison of `drv_c01 emit` with `cproc-qbe`),
+  * target semantics: `Qbe.runFunc`.
+
+  The MODEL and its tie cover declarations (with and without initialiser), assignment, compound
+  assignment, `++`/`--`, expression statements, blocks, `if`/`else`, `while`, `do`, `for`, `break`,
+  `continue`, `return`.  The THEOREM below covers the statements selected by `LowerMach2.frag`
+  (`InF2`), which grows stage by stage; see the comment at `InF2`. -/
+
+/-- The part of 𝔽₂ for which preservation is proved: bodies without loops — `;`, declarations with and
+    without initialiser, (compound) assignment, `++`/`--` (on non-`_Bool` objects: `Stmt.wt`), expression
+    statements, blocks, `if`, `if`-`else`, `return` anywhere (but not followed by code in the same
+    block: `Stmt.wt`). -/
+def InF2 (f : CSem2.Func) : Prop := LowerMach2.frag f.body = true
+
+instance (f : CSem2.Func) : Decidable (InF2 f) := by unfold InF2; exact inferInstance
+
+/-- **Semantic preservation for 𝔽₂** (in any program that contains the emitted function and starts with
+    an empty stack): if the C execution of the body on the arguments `ρ` reaches `return` with value `v`
+    within some fuel, without undefined behaviour, then the emitted IL, run on representations of `ρ`,
+    returns a representation of `v` for every sufficiently large fuel — it does not get stuck, trap,
+    touch memory outside its own slots, or produce output. -/
+theorem lower2_correct_in (cs : Bool) (startid : Nat) (f : CSem2.Func) (ρ : List Int) (v : Int)
+    (hwt : CSem2.WT f) (hin : InF2 f) (henv : EnvOK cs f.params ρ)
+    (hsmall : f.params.length + f.locals.length ≤ 1000000)
+    (cfuel : Nat) (hev : CSem2.runC cs cfuel f ρ = some v) (p : Prog) (ext : Ext)
+    (hfun : p.funcs[f.name]? = some (FuncInfo.of (Lower2.emitFunc cs startid f)))
+    (hstack : p.initMem.stack = #[]) (hsp : p.initMem.sp = stackTop) :
+    ∃ fuel₀ r, RetRep f.ret v r ∧ ∀ fuel, fuel₀ ≤ fuel →
+      runFunc p ext f.name (argsOf f.params ρ) fuel = ⟨#[], .ret (.scalar r)⟩ := by
+  have hex : CSem2.exec cs cfuel (CSem2.initStore f ρ) f.body = some (.ret v) := by
+    unfold CSem2.runC at hev
+    split at hev
+    · rename_i w h; cases hev; exact h
+    · cases hev
+  exact LowerMach2.lower2_correct_prog cs startid f ρ v hwt hin henv hsmall cfuel hex p ext hfun hstack hsp
+
+/-- **Semantic preservation for 𝔽₂.** -/
+theorem lower2_correct (cs : Bool) (startid : Nat) (f : CSem2.Func) (ρ : List Int) (v : Int)
+    (ext : Ext) (hwt : CSem2.WT f) (hin : InF2 f) (henv : EnvOK cs f.params ρ)
+    (hsmall : f.params.length + f.locals.length ≤ 1000000)
+    (cfuel : Nat) (hev : CSem2.runC cs cfuel f ρ = some v) :
+    ∃ fuel₀ r, RetRep f.ret v r ∧ ∀ fuel, fuel₀ ≤ fuel →
+      runFunc (prog (Lower2.emitFunc cs startid f)) ext f.name (argsOf f.params ρ) fuel =
+        ⟨#[], .ret (.scalar r)⟩ := by
+  refine lower2_correct_in cs startid f ρ v hwt hin henv hsmall cfuel hev _ ext
+    (prog_funcs (Lower2.emitFunc cs startid f)) ?_ ?_
+  · rw [prog_initMem]
+  · rw [prog_initMem]
+
+/-- `lower2_correct` for functions returning `int`, `unsigned`, `long`, …: the outcome is an equation. -/
+theorem lower2_correct_exact (cs : Bool) (startid : Nat) (f : CSem2.Func) (ρ : List Int) (v : Int)
+    (ext : Ext) (hwt : CSem2.WT f) (hin : InF2 f) (henv : EnvOK cs f.params ρ)
+    (hsmall : f.params.length + f.locals.length ≤ 1000000) (hret : 4 ≤ f.ret.size)
+    (cfuel : Nat) (hev : CSem2.runC cs cfuel f ρ = some v) :
+    ∃ fuel₀, ∀ fuel, fuel₀ ≤ fuel →
+      runFunc (prog (Lower2.emitFunc cs startid f)) ext f.name (argsOf f.params ρ) fuel =
+        ⟨#[], .ret (.scalar (argOf f.ret v).2)⟩ := by
+  obtain ⟨n, r, hr, h⟩ := lower2_correct cs startid f ρ v ext hwt hin henv hsmall cfuel hev
+  exact ⟨n, fun fuel hf => by rw [h fuel hf, retRep_exact hret hr]⟩
+
+/-- Stated, not proved yet: preservation for ALL well-formed functions of 𝔽₂ (`while`, `do`, `for`
+    with `break`/`continue` included).  Missing: the cases `while_`, `dowhile`, `for_` of
+    `LowerMach2.sim_stmt` (`Lemmas/Lower2Stmt.lean`); everything else (expression simulation over slots,
+    memory invariant, control lemmas `Post.close`/`Post.closeJmp`, `break`/`continue` as pending
+    jumps, the structural facts `funcstmt_good` for all statement kinds incl. the loops, the function
+    wrapper) is proved for the whole of 𝔽₂.  The executable model and its tie to cproc-qbe cover all of
+    𝔽₂ already. -/
+def lower2_correct_full : Prop :=
+  ∀ (cs : Bool) (startid : Nat) (f : CSem2.Func) (ρ : List Int) (v : Int) (ext : Ext),
+    CSem2.WT f → EnvOK cs f.params ρ → f.params.length + f.locals.length ≤ 1000000 →
+    ∀ cfuel, CSem2.runC cs cfuel f ρ = some v →
+    ∃ fuel₀ r, RetRep f.ret v r ∧ ∀ fuel, fuel₀ ≤ fuel →
+      runFunc (prog (Lower2.emitFunc cs startid f)) ext f.name (argsOf f.params ρ) fuel =
+        ⟨#[], .ret (.scalar r)⟩
+
+/-! ## Non-vacuity (𝔽₂) -/
+
+/-- `int f(int a, unsigned char b) { long x = a + b; short y; y = x * 2; x = y; { int z = 3; x = x + z; } return x; }` -/
+def ex4 : CSem2.Func :=
+  { name := "f", ret := .int, params := [.int, .uchar], locals := [.long, .short, .int],
+    body :=
+      .seq (.decl 2 .long (some (.cast .long (.bin .add .int (.param .int 0) (.cast .int (.param .uchar 1))))))
+      (.seq (.decl 3 .short none)
+      (.seq (.assign 3 .short (.cast .short (.bin .mul .long (.param .long 2) (.cast .long (.const .int 2)))))
+      (.seq (.assign 2 .long (.cast .long (.param .short 3)))
+      (.seq (.seq (.decl 4 .int (some (.const .int 3)))
+                  (.assign 2 .long (.bin .add .long (.param .long 2) (.cast .long (.param .int 4)))))
+            (.ret (.cast .int (.param .long 2))))))) }
+
+example : CSem2.WT ex4 := by decide
+example : InF2 ex4 := by decide
+example : CSem2.runC true 20 ex4 [100, 200] = some 603 := by decide
+/-- one statement kind each: declaration without initialiser then read = undefined -/
+example : CSem2.runC true 20
+    { name := "g", ret := .int, params := [], locals := [.int],
+      body := .seq (.decl 0 .int none) (.ret (.param .int 0)) } [] = none := by decide
+/-- expression statement, `;`, compound assignment `x += 5` as cproc rewrites it -/
+def ex5 : CSem2.Func :=
+  { name := "h", ret := .uint, params := [.short], locals := [],
+    body := .seq (.expr (.bin .add .int (.cast .int (.param .short 0)) (.const .int 1)))
+      (.seq .skip
+      (.seq (.assign 0 .short (.cast .short (.bin .add .int (.cast .int (.param .short 0)) (.const .int 5))))
+      (.ret (.cast .uint (.param .short 0))))) }
+example : CSem2.WT ex5 := by decide
+example : InF2 ex5 := by decide
+example : CSem2.runC true 20 ex5 [32767] = some 4294934532 := by decide   -- (short)32772 = -32764
+/-- signed overflow in the initialiser is undefined -/
+example : CSem2.runC true 20 ex4 [2147483647, 1] = none := by decide
+
+/-- `if` / `if`-`else` / `++`, `return` inside a branch:
+    `int g(int a) { int r; if (a > 3) { r = 1; } else r = 2; if (a) return r; a++; return a + r; }` -/
+def ex6 : CSem2.Func :=
+  { name := "g", ret := .int, params := [.int], locals := [.int],
+    body :=
+      .seq (.decl 1 .int none)
+      (.seq (.itee (.bin .gt .int (.param .int 0) (.const .int 3)) (.assign 1 .int (.const .int 1))
+              (.assign 1 .int (.const .int 2)))
+      (.seq (.ite (.param .int 0) (.ret (.param .int 1)))
+      (.seq (.incdec 0 .int true)
+            (.ret (.bin .add .int (.param .int 0) (.param .int 1)))))) }
+example : CSem2.WT ex6 := by decide
+example : InF2 ex6 := by decide
+example : CSem2.runC true 20 ex6 [7] = some 1 := by decide
+example : CSem2.runC true 20 ex6 [0] = some 3 := by decide
+/-- `x--` on `short` wraps through `int`; on `int` at `INT_MIN` it is undefined -/
+example : CSem2.runC true 20
+    { name := "d", ret := .int, params := [.short], locals := [],
+      body := .seq (.incdec 0 .short false) (.ret (.cast .int (.param .short 0))) } [-32768] = some 32767 := by
+  decide
+example : CSem2.runC true 20
+    { name := "d", ret := .int, params := [.int], locals := [],
+      body := .seq (.incdec 0 .int false) (.ret (.param .int 0)) } [-2147483648] = none := by decide
+
+/-- the theorem applied to `ex6` -/
+example : ∃ fuel₀, ∀ fuel, fuel₀ ≤ fuel →
+    runFunc (prog (Lower2.emitFunc true 0 ex6)) noExt "g" (argsOf ex6.params [0]) fuel =
+      ⟨#[], .ret (.scalar ⟨.w, 3⟩)⟩ := by
+  have hval : (argOf ex6.ret 3).2 = ⟨.w, 3⟩ := by decide
+  rw [← hval]
+  exact lower2_correct_exact true 0 ex6 [0] 3 noExt (by decide) (by decide)
+    ⟨rfl, by
+      intro i t v ht hv
+      match i, ht, hv with
+      | 0, ht, hv => cases ht; cases hv; decide⟩
+    (by decide) (by decide) 20 (by decide)
+
+/-- the theorem applied to `ex4` -/
+example : ∃ fuel₀, ∀ fuel, fuel₀ ≤ fuel →
+    runFunc (prog (Lower2.emitFunc true 0 ex4)) noExt "f" (argsOf ex4.params [100, 200]) fuel =
+      ⟨#[], .ret (.scalar ⟨.w, 603⟩)⟩ := by
+  have hval : (argOf ex4.ret 603).2 = ⟨.w, 603⟩ := by decide
+  rw [← hval]
+  exact lower2_correct_exact true 0 ex4 [100, 200] 603 noExt (by decide) (by decide)
+    ⟨rfl, by
+      intro i t v ht hv
+      match i, ht, hv with
+      | 0, ht, hv => cases ht; cases hv; decide
+      | 1, ht, hv => cases ht; cases hv; decide⟩
+    (by decide) (by decide) 20 (by decide)
 
 end CprocVerif.C01
